@@ -49,6 +49,143 @@ type Exec struct {
 	inInit    map[*ssa.Package]bool
 	globalVals map[*ssa.Global]*Term
 	initStates map[*ssa.Package]*State
+	recorders  []*recorder
+	skipHeader *ssa.BasicBlock
+	iterPrefix map[string]*Term
+	arrayFam   map[string]int
+}
+
+// WriteSet: what a piece of code may write, discovered by symbolically executing it from an arbitrary state.
+type WriteSet struct {
+	fams    map[int]bool // key families (first byte) written in the store
+	all     bool         // a key of unknown family was written
+	effects bool         // a dependency command was issued (E and X change)
+}
+
+type recorder struct {
+	byWorld map[int]*WriteSet
+}
+
+func (r *recorder) ws(w int) *WriteSet {
+	x := r.byWorld[w]
+	if x == nil {
+		x = &WriteSet{fams: map[int]bool{}}
+		r.byWorld[w] = x
+	}
+	return x
+}
+
+func (ex *Exec) recordWrite(world int, key *Term) {
+	for _, r := range ex.recorders {
+		w := r.ws(world)
+		f := Fam(key)
+		if f.Op == "int" && f.Int.IsInt64() {
+			w.fams[int(f.Int.Int64())] = true
+		} else if fb := ex.iterKeyFamily(key); fb >= 0 {
+			w.fams[fb] = true
+		} else {
+			w.all = true
+		}
+	}
+}
+
+// iterKeyFamily: keys produced by a prefix iterator have the family of the prefix.
+func (ex *Exec) iterKeyFamily(key *Term) int {
+	if key.Op == "uf" && strings.HasPrefix(key.Str, "itkey@") {
+		if p, ok := ex.iterPrefix[key.Str]; ok && p != nil {
+			f := Fam(p)
+			if f.Op == "int" && f.Int.IsInt64() {
+				return int(f.Int.Int64())
+			}
+		}
+	}
+	if key.Op == "ite" {
+		a, b := ex.iterKeyFamily(key.Args[1]), ex.iterKeyFamily(key.Args[2])
+		if a == b {
+			return a
+		}
+	}
+	if key.Op == "select" && key.Args[0].Op == "var" {
+		// element of an array of collected keys: family tag of the array, if any
+		if fb, ok := ex.arrayFam[key.Args[0].Str]; ok {
+			return fb
+		}
+	}
+	return -1
+}
+
+func (ex *Exec) recordEffect(world int) {
+	for _, r := range ex.recorders {
+		r.ws(world).effects = true
+	}
+}
+
+func (ex *Exec) recordMerge(child, parent int) {
+	for _, r := range ex.recorders {
+		c := r.byWorld[child]
+		if c == nil {
+			continue
+		}
+		p := r.ws(parent)
+		for f := range c.fams {
+			p.fams[f] = true
+		}
+		p.all = p.all || c.all
+		p.effects = p.effects || c.effects
+	}
+}
+
+// discover runs f with a fresh recorder and returns what was written per world.
+func (ex *Exec) discover(f func()) *recorder {
+	r := &recorder{byWorld: map[int]*WriteSet{}}
+	ex.recorders = append(ex.recorders, r)
+	saveSpec, saveStack, saveSite := ex.specMode, ex.callStack, ex.site
+	saveStates := ex.nstates
+	ex.specMode++
+	defer func() {
+		ex.recorders = ex.recorders[:len(ex.recorders)-1]
+		ex.specMode, ex.callStack, ex.site = saveSpec, saveStack, saveSite
+		ex.nstates = saveStates
+		if rec := recover(); rec != nil {
+			// discovery failed: everything may have been written
+			for _, w := range r.byWorld {
+				w.all, w.effects = true, true
+			}
+			r.byWorld[-1] = &WriteSet{all: true, effects: true}
+		}
+	}()
+	f()
+	return r
+}
+
+// frameFor constrains a fresh world to agree with the old one outside the discovered write set.
+func (ex *Exec) frameFor(st *State, old, neu *World, ws *WriteSet) {
+	if ws == nil {
+		// nothing written
+		*neu = *old
+		return
+	}
+	if !ws.effects {
+		neu.E, neu.X = old.E, old.X
+	}
+	if ws.all {
+		return
+	}
+	if len(ws.fams) == 0 {
+		neu.S = old.S
+		return
+	}
+	k := BVar("k!fr", SBytes)
+	var cs []*Term
+	var fl []int
+	for f := range ws.fams {
+		fl = append(fl, f)
+	}
+	sort.Ints(fl)
+	for _, f := range fl {
+		cs = append(cs, Neq(App("fam", k), IntLit(int64(f))))
+	}
+	st.AssumeDef(Forall([]*Term{k}, Implies(And(cs...), Eq(Select(neu.S, k), Select(old.S, k))), []*Term{Select(neu.S, k)}))
 }
 
 type Frame struct {
@@ -642,6 +779,12 @@ func (ex *Exec) runFunc(fn *ssa.Function, args []Val, bindings []Val, st *State,
 	fr := fr0
 	if fr == nil {
 		fr = ex.newFrame(fn)
+		if ct := ex.lookupContract(fn); ct != nil && len(ct.Loops) > 0 && len(args) == len(fn.Params) {
+			// inlined function with loop invariants: they refer to its own entry state
+			params, ctx := ex.paramTVs(fn, args)
+			fr.contract = ct
+			fr.entry = &EntrySnapshot{st: st.Clone(), params: params, ctx: ctx}
+		}
 	}
 	for i, p := range fn.Params {
 		fr.env[p] = args[i]
@@ -656,12 +799,20 @@ func (ex *Exec) runFunc(fn *ssa.Function, args []Val, bindings []Val, st *State,
 
 const maxUnroll = 80
 
+// runBody starts executing at a loop header that is already cut, without treating the arrival as a back edge.
+func (ex *Exec) runBody(fr *Frame, h *ssa.BasicBlock, st *State) []Result {
+	ex.skipHeader = h
+	return ex.runFrom(fr, h, 0, st)
+}
+
 func (ex *Exec) runFrom(fr *Frame, b *ssa.BasicBlock, idx int, st *State) []Result {
 	for {
 		if st.dead {
 			return nil
 		}
-		if idx == 0 {
+		if idx == 0 && ex.skipHeader == b {
+			ex.skipHeader = nil
+		} else if idx == 0 {
 			li := ex.loops(fr.fn)
 			if lp := li.byHeader[b]; lp != nil {
 				cont, rs := ex.enterLoopHeader(fr, lp, st)
@@ -1810,13 +1961,38 @@ func (ex *Exec) havocLoop(fr *Frame, lp *Loop, st *State) {
 		}
 	}
 	if touchWorld {
+		olds := map[int]*World{}
 		for id, w := range st.worlds {
 			if !allWorlds && !touched[id] {
 				continue
 			}
+			olds[id] = w
 			st.worlds[id] = &World{S: Fresh("hvS", SStore), X: Fresh("hvX", SXState), E: Fresh("hvE", w.E.Sort)}
 		}
+		// discover what one arbitrary iteration writes (from the fully havocked state) and keep the rest framed
+		rec := ex.discover(func() {
+			st2 := st.Clone()
+			fr2 := fr.clone()
+			fr2.cut[lp.header] = true
+			ex.discoveryRun(fr2, lp, st2)
+		})
+		for id, old := range olds {
+			ws := rec.byWorld[id]
+			if rec.byWorld[-1] != nil {
+				ws = rec.byWorld[-1]
+			}
+			if ws == nil {
+				ws = &WriteSet{fams: map[int]bool{}}
+			}
+			ex.frameFor(st, old, st.worlds[id], ws)
+		}
 	}
+}
+
+// discoveryRun executes one arbitrary iteration of the loop (header first) on a scratch state.
+func (ex *Exec) discoveryRun(fr *Frame, lp *Loop, st *State) {
+	// skip the header's own loop handling: start after marking it cut; runFrom at idx 0 would treat arrival as a back edge
+	ex.runBody(fr, lp.header, st)
 }
 
 func (ex *Exec) collectIterObjs(fr *Frame, st *State, v ssa.Value, out map[int]*Obj) {
